@@ -219,7 +219,13 @@ def check_roundtrip(run, seed):
             e1 = max(abs(got[k] - alm[k]) for k in alm if k[0] >= abs(s))
             back = mt.sYlm_reconstruct(s, lmax, {k: (got[k] if k[0] >= abs(s) else 0.0) for k in got}, TH, PH)
             e2 = np.abs(back - f).max() / np.abs(f).max()
-            errs.append(max(e1, e2))
+            # the same field sampled on another angular grid of the same shape (azimuths offset by 0.3): the decomposition depends on
+            # where the samples are, not on how many there are
+            PH2 = PH + 0.3
+            f2 = sum(a * mt.sYlm(s, l, m, TH, PH2) for (l, m), a in alm.items() if a != 0)
+            got2 = mt.sYlm_coefficients(s, lmax, f2, TH, PH2, np.sin(TH) * dth, dph)
+            e3 = max(abs(got2[k] - alm[k]) for k in alm if k[0] >= abs(s))
+            errs.append(max(e1, e2, e3))
         run.count(("roundtrip", s))
         run.info.setdefault("roundtrip_errors_at_16_32_64", {})[str(s)] = [float(e) for e in errs]
         if not (errs[2] < 5e-3 and errs[2] < errs[1] / 3 and errs[1] < errs[0] / 3):
